@@ -454,6 +454,14 @@ static int g_dispatch_initialized = 0;
  * ============================================================================
  */
 
+#ifdef CARQUET_VERIF
+/* Verification hook (off by default): forget the dispatch table so the next
+ * use re-initialises it from the (possibly capped) CPU info. */
+void carquet_verif_reset_dispatch(void) {
+    g_dispatch_initialized = 0;
+}
+#endif /* CARQUET_VERIF */
+
 void carquet_simd_dispatch_init(void) {
     if (g_dispatch_initialized) {
         return;
